@@ -373,6 +373,14 @@ func (blockchain *Blockchain) BeginBlock(req abciTypes.RequestBeginBlock) abciTy
 				blockchain.stateDeliver.Accounts.AddBalance(item.Address, item.Coin, amount)
 			} else {
 				moveTo := blockchain.stateDeliver.Candidates.PubKey(item.GetMoveToCandidateID())
+				if !blockchain.stateDeliver.Candidates.Exists(moveTo) {
+					// the target candidate was removed while the move was in flight: the coins cannot be
+					// delegated to it (Candidates.Delegate would dereference a nil candidate and stop every
+					// node at this height). They leave staking like the stakes the removed candidate held:
+					// back to the owner's balance one unbond period from now.
+					blockchain.stateDeliver.FrozenFunds.AddFund(height+types.GetUnbondPeriod(), item.Address, item.CandidateKey, item.CandidateID, item.Coin, big.NewInt(0).Set(amount), 0)
+					continue
+				}
 				blockchain.eventsDB.AddEvent(&eventsdb.StakeMoveEvent{
 					Address:           item.Address,
 					Amount:            amount.String(),
